@@ -1210,15 +1210,17 @@ impl TypeChecker {
         for (constraint, original_span) in self.find_node(a).constraints.clone().iter() {
             match constraint {
                 // It would be nice to know from where this came from
-                Constraint::Add(b) => self.add(span, ctx, a, *b),
-                Constraint::Sub(b) => self.sub(span, ctx, a, *b),
-                Constraint::Mul(b) => self.mul(span, ctx, a, *b),
-                Constraint::DivTop(b) => self.div(span, ctx, a, *b), // NOTE(ed): Arguments are flipped
-                Constraint::DivBot(b) => self.div(span, ctx, *b, a), // NOTE(ed): Arguments are flipped
-                Constraint::DivRes(b) => self.div_res(span, ctx, *b, a),
+                Constraint::Add(b) => self.add(span, ctx, a, *b, &mut BTreeSet::new()),
+                Constraint::Sub(b) => self.sub(span, ctx, a, *b, &mut BTreeSet::new()),
+                Constraint::Mul(b) => self.mul(span, ctx, a, *b, &mut BTreeSet::new()),
+                Constraint::DivTop(b) => self.div(span, ctx, a, *b, &mut BTreeSet::new()), // NOTE(ed): Arguments are flipped
+                Constraint::DivBot(b) => self.div(span, ctx, *b, a, &mut BTreeSet::new()), // NOTE(ed): Arguments are flipped
+                Constraint::DivRes(b) => self.div_res(span, ctx, *b, a, &mut BTreeSet::new()),
                 Constraint::Equ(b) => self.equ(span, ctx, a, *b),
-                Constraint::Cmp(b) => self.cmp(span, ctx, a, *b),
-                Constraint::CmpEqu(b) => self.equ(span, ctx, a, *b).and(self.cmp(span, ctx, a, *b)),
+                Constraint::Cmp(b) => self.cmp(span, ctx, a, *b, &mut BTreeSet::new()),
+                Constraint::CmpEqu(b) => self
+                    .equ(span, ctx, a, *b)
+                    .and(self.cmp(span, ctx, a, *b, &mut BTreeSet::new())),
 
                 Constraint::Neg => match self.find_type(a) {
                     Type::Unknown | Type::Int | Type::Float => Ok(()),
@@ -1802,7 +1804,20 @@ impl TypeChecker {
             .or_insert_with(|| span);
     }
 
-    fn add(&mut self, span: Span, ctx: TypeCtx, a: TyID, b: TyID) -> TypeResult<()> {
+    fn add(
+        &mut self,
+        span: Span,
+        ctx: TypeCtx,
+        a: TyID,
+        b: TyID,
+        seen: &mut BTreeSet<(TyID, TyID)>,
+    ) -> TypeResult<()> {
+        // NOTE: Types can be cyclic since unification has no occurs check, so we remember the
+        // pairs that have been looked at.
+        let (a, b) = (self.find(a), self.find(b));
+        if !seen.insert((a, b)) {
+            return Ok(());
+        }
         match (self.find_type(a), self.find_type(b)) {
             (Type::Unknown, _) | (_, Type::Unknown) => Ok(()),
 
@@ -1810,7 +1825,7 @@ impl TypeChecker {
 
             (Type::Tuple(a), Type::Tuple(b)) if a.len() == b.len() => {
                 for (a, b) in a.iter().zip(b.iter()) {
-                    self.add(span, ctx, *a, *b)?;
+                    self.add(span, ctx, *a, *b, seen)?;
                 }
                 Ok(())
             }
@@ -1827,7 +1842,20 @@ impl TypeChecker {
         }
     }
 
-    fn sub(&mut self, span: Span, ctx: TypeCtx, a: TyID, b: TyID) -> TypeResult<()> {
+    fn sub(
+        &mut self,
+        span: Span,
+        ctx: TypeCtx,
+        a: TyID,
+        b: TyID,
+        seen: &mut BTreeSet<(TyID, TyID)>,
+    ) -> TypeResult<()> {
+        // NOTE: Types can be cyclic since unification has no occurs check, so we remember the
+        // pairs that have been looked at.
+        let (a, b) = (self.find(a), self.find(b));
+        if !seen.insert((a, b)) {
+            return Ok(());
+        }
         match (self.find_type(a), self.find_type(b)) {
             (Type::Unknown, _) | (_, Type::Unknown) => Ok(()),
 
@@ -1835,7 +1863,7 @@ impl TypeChecker {
 
             (Type::Tuple(a), Type::Tuple(b)) if a.len() == b.len() => {
                 for (a, b) in a.iter().zip(b.iter()) {
-                    self.sub(span, ctx, *a, *b)?;
+                    self.sub(span, ctx, *a, *b, seen)?;
                 }
                 Ok(())
             }
@@ -1852,7 +1880,20 @@ impl TypeChecker {
         }
     }
 
-    fn mul(&mut self, span: Span, ctx: TypeCtx, a: TyID, b: TyID) -> TypeResult<()> {
+    fn mul(
+        &mut self,
+        span: Span,
+        ctx: TypeCtx,
+        a: TyID,
+        b: TyID,
+        seen: &mut BTreeSet<(TyID, TyID)>,
+    ) -> TypeResult<()> {
+        // NOTE: Types can be cyclic since unification has no occurs check, so we remember the
+        // pairs that have been looked at.
+        let (a, b) = (self.find(a), self.find(b));
+        if !seen.insert((a, b)) {
+            return Ok(());
+        }
         match (self.find_type(a), self.find_type(b)) {
             (Type::Unknown, _) | (_, Type::Unknown) => Ok(()),
 
@@ -1860,7 +1901,7 @@ impl TypeChecker {
 
             (Type::Tuple(a), Type::Tuple(b)) if a.len() == b.len() => {
                 for (a, b) in a.iter().zip(b.iter()) {
-                    self.mul(span, ctx, *a, *b)?;
+                    self.mul(span, ctx, *a, *b, seen)?;
                 }
                 Ok(())
             }
@@ -1877,7 +1918,20 @@ impl TypeChecker {
         }
     }
 
-    fn div(&mut self, span: Span, ctx: TypeCtx, a: TyID, b: TyID) -> TypeResult<()> {
+    fn div(
+        &mut self,
+        span: Span,
+        ctx: TypeCtx,
+        a: TyID,
+        b: TyID,
+        seen: &mut BTreeSet<(TyID, TyID)>,
+    ) -> TypeResult<()> {
+        // NOTE: Types can be cyclic since unification has no occurs check, so we remember the
+        // pairs that have been looked at.
+        let (a, b) = (self.find(a), self.find(b));
+        if !seen.insert((a, b)) {
+            return Ok(());
+        }
         match (self.find_type(a), self.find_type(b)) {
             (Type::Unknown, _) => Ok(()),
             (_, Type::Unknown) => Ok(()),
@@ -1886,14 +1940,14 @@ impl TypeChecker {
 
             (Type::Tuple(a), Type::Float | Type::Int) => {
                 for a in a.iter() {
-                    self.div(span, ctx, *a, b)?;
+                    self.div(span, ctx, *a, b, seen)?;
                 }
                 Ok(())
             }
 
             (Type::Tuple(a), Type::Tuple(b)) if a.len() == b.len() => {
                 for (a, b) in a.iter().zip(b.iter()) {
-                    self.div(span, ctx, *a, *b)?;
+                    self.div(span, ctx, *a, *b, seen)?;
                 }
                 Ok(())
             }
@@ -1910,7 +1964,20 @@ impl TypeChecker {
         }
     }
 
-    fn div_res(&mut self, span: Span, ctx: TypeCtx, a: TyID, b: TyID) -> TypeResult<()> {
+    fn div_res(
+        &mut self,
+        span: Span,
+        ctx: TypeCtx,
+        a: TyID,
+        b: TyID,
+        seen: &mut BTreeSet<(TyID, TyID)>,
+    ) -> TypeResult<()> {
+        // NOTE: Types can be cyclic since unification has no occurs check, so we remember the
+        // pairs that have been looked at.
+        let (a, b) = (self.find(a), self.find(b));
+        if !seen.insert((a, b)) {
+            return Ok(());
+        }
         match (self.find_type(a), self.find_type(b)) {
             (Type::Float | Type::Int, Type::Float) => Ok(()),
 
@@ -1927,12 +1994,13 @@ impl TypeChecker {
                 let tuple = self.push_type(Type::Tuple(tys));
                 self.unify(span, ctx, b, tuple)?;
                 // Retry with the new info
-                self.div_res(span, ctx, a, b)
+                seen.remove(&(a, b));
+                self.div_res(span, ctx, a, b, seen)
             }
 
             (Type::Tuple(a), Type::Tuple(b)) if a.len() == b.len() => {
                 for (a, b) in a.iter().zip(b.iter()) {
-                    self.div_res(span, ctx, *a, *b)?;
+                    self.div_res(span, ctx, *a, *b, seen)?;
                 }
                 Ok(())
             }
@@ -1953,7 +2021,20 @@ impl TypeChecker {
         self.unify(span, ctx, a, b).map(|_| ())
     }
 
-    fn cmp(&mut self, span: Span, ctx: TypeCtx, a: TyID, b: TyID) -> TypeResult<()> {
+    fn cmp(
+        &mut self,
+        span: Span,
+        ctx: TypeCtx,
+        a: TyID,
+        b: TyID,
+        seen: &mut BTreeSet<(TyID, TyID)>,
+    ) -> TypeResult<()> {
+        // NOTE: Types can be cyclic since unification has no occurs check, so we remember the
+        // pairs that have been looked at.
+        let (a, b) = (self.find(a), self.find(b));
+        if !seen.insert((a, b)) {
+            return Ok(());
+        }
         match (self.find_type(a), self.find_type(b)) {
             (Type::Unknown, _) | (_, Type::Unknown) => Ok(()),
 
@@ -1965,7 +2046,7 @@ impl TypeChecker {
 
             (Type::Tuple(a), Type::Tuple(b)) if a.len() == b.len() => {
                 for (a, b) in a.iter().zip(b.iter()) {
-                    self.cmp(span, ctx, *a, *b)?;
+                    self.cmp(span, ctx, *a, *b, seen)?;
                 }
                 Ok(())
             }
